@@ -172,7 +172,14 @@ class BufferedReader:
                     yield self._buffer[:pos]
                 return
 
-        yield self._buffer
+        # NOTE: the source is exhausted without the delimiter; hand out what is
+        #   left and consume it, so that it is not returned again by the next
+        #   read and tell()/eof reflect it.
+        output = self._buffer
+        self._buffer = b''
+        self._buffer_len = 0
+        self._buffer_pos = 0
+        yield output
 
     async def _consume_delimiter(self, delimiter: bytes) -> None:
         delimiter_len = len(delimiter)
